@@ -331,3 +331,50 @@ Lemma content_length_under_witness_rejected :
   let '(out, e, b') := body_reads (new_body (new_stream (mkSrc (wire under_witness_frames) [] EEOF false) 1000) 5 false) [16; 16] in
   out = [97; 98; 99] /\ e = Some EUnexpectedEOF /\ b_cancels b' = reset_both /\ b_rem b' = 2.
 Proof. vm_compute. auto. Qed.
+
+(** * Whatever the stream does (truncated, garbage, reset): with a Content-Length, a clean EOF
+    comes out of the body only after at least the declared number of bytes. *)
+Lemma body_read_accounting (b : body) (blen : Z) (out : list Z) (e : option err) (b' : body) :
+  body_read b blen = (out, e, b') ->
+  b_rem b' = b_rem b - zlen out /\ b_has b' = b_has b /\ b_nocontent b' = b_nocontent b /\
+  (e = Some EEOF -> b_has b = true -> b_nocontent b = false -> b_rem b - zlen out <= 0).
+Proof.
+  destruct b as [x r h v c nc]. unfold body_read, check_cl, reset_message_error.
+  cbn [b_str b_rem b_has b_violated b_cancels b_nocontent].
+  destruct h; cbn [negb].
+  - destruct ((r <? 0) || ((r =? 0) && (0 <? x_rem x))) eqn:C1.
+    + intros H. inversion H; subst. change (zlen (@nil Z)) with 0.
+      destruct v; cbn; repeat split; try lia; intros; discriminate.
+    + destruct (stream_read x (Z.min blen r)) as [[o e0] x1]. cbn [b_str b_rem b_has b_violated b_cancels b_nocontent].
+      destruct ((r - zlen o <? 0) || ((r - zlen o =? 0) && (0 <? x_rem x1))) eqn:C2.
+      * intros H. inversion H; subst. destruct v; cbn; repeat split; try lia; intros; discriminate.
+      * destruct (oerr_is_eof e0 && true && (0 <? r - zlen o) && negb nc) eqn:C3.
+        -- intros H. inversion H; subst. destruct v; cbn; repeat split; try lia; intros; discriminate.
+        -- intros H. injection H as Ho He Hb. subst out b'. cbn. repeat split; try lia.
+           intros Hee _ Hnc. subst nc e. destruct e0 as [e0|]; [|discriminate].
+           destruct e0; try discriminate. cbn in C3. rewrite andb_true_r in C3.
+           destruct (Z.ltb_spec 0 (r - zlen o)); [discriminate|lia].
+  - destruct (stream_read x blen) as [[o e0] x1]. cbn. destruct (oerr_is_eof e0); cbn [andb];
+    intros H; inversion H; subst; cbn; (split; [lia|]); (split; [reflexivity|]); (split; [reflexivity|]);
+    intros _ Hf; discriminate Hf.
+Qed.
+
+Lemma body_reads_eof_complete : forall (bufs : list Z) (b : body) (out : list Z) (b' : body),
+  body_reads b bufs = (out, Some EEOF, b') -> b_has b = true -> b_nocontent b = false ->
+  b_rem b <= zlen out.
+Proof.
+  induction bufs as [|n bufs IH]; intros b out b' H Hh Hnc; [discriminate|].
+  cbn [body_reads] in H. destruct (body_read b n) as [[o e] b1] eqn:Hr.
+  destruct (body_read_accounting b n o e b1 Hr) as (Hrem & Hh1 & Hnc1 & Heof).
+  destruct e as [e|].
+  - inversion H; subst. specialize (Heof eq_refl Hh Hnc). lia.
+  - destruct (body_reads b1 bufs) as [[o2 e2] b2] eqn:Hr2. inversion H; subst.
+    specialize (IH b1 o2 b' Hr2 ltac:(congruence) ltac:(congruence)). rewrite zlen_app. lia.
+Qed.
+
+Theorem content_length_eof_only_when_complete (x : stream) (cl : Z) (bufs : list Z) (out : list Z) (b' : body) :
+  0 <= cl -> body_reads (new_body x cl false) bufs = (out, Some EEOF, b') -> cl <= zlen out.
+Proof.
+  intros Hcl H. unfold new_body in H. destruct (Z.leb_spec 0 cl); [|lia].
+  exact (body_reads_eof_complete bufs _ out b' H eq_refl eq_refl).
+Qed.
